@@ -247,6 +247,11 @@ ROLES = (
      (t.get('dest') or {}).get('ty') in ('f64', 'f32', 'bool'),
      'exclude': lambda t: (t['func'].get('trait') or '').endswith(('Basis', 'State')) and
      (t['func'].get('fn') or '').rsplit('::', 1)[-1] in ('set_sampled', 'score', 'reset_value', 'set_value')},
+    # the stepping function (reference: optimise_state, which is normally there): an unknown function that proposes moves and is
+    # called from two or more other functions stays a function
+    {'reference': 'optimisation::MCOptimiser::optimise_state', 'crate': 'lib', 'shared': True,
+     'construct': lambda t: (t['func'].get('trait') or '').endswith('Basis') and
+     (t['func'].get('fn') or '').rsplit('::', 1)[-1] == 'set_sampled'},
     # the overlap test of the hard state (reference: check_intersection): the outermost unknown method of PackedState that
     # compares shapes with Intersect::intersects
     {'reference': 'state::packed::PackedState::<S>::check_intersection', 'crate': 'lib', 'self_adt': 'state::packed::PackedState',
@@ -255,11 +260,15 @@ ROLES = (
 )
 
 
+import re as _re_mod
+_re_closure = _re_mod.compile(r'(::\{closure#\d+\})+$')
+
+
 def _role_keepers(facts, known, helpers):
     keep = []
     for role in ROLES:
         ref = role['reference']
-        if ref in known and (ref in facts.bodies or ref.split('::', 1)[-1] in facts.bodies):
+        if ref in known and (ref in facts.bodies or ref.split('::', 1)[-1] in facts.bodies) and not role.get('shared'):
             continue            # the reference function is there
         cand = {}
         calls = {}
@@ -303,6 +312,25 @@ def _role_keepers(facts, known, helpers):
                         changed = True
             holders = [k for k in holders if not excl.get(k)]
         outer = [k for k in holders if not any(k in calls[o] for o in holders if o != k)]
+        if role.get('shared'):
+            # the reference function is there, but the work has moved into an unknown function that OTHER functions call too
+            # (`optimise_state` now wraps a public `try_optimise_state` the CLI calls directly): splicing it into every caller
+            # would copy the role into each of them; it is kept where it is
+            keepers = []
+            for k in outer:
+                callers = set()
+                for k2, b2 in facts.bodies.items():
+                    if k2 == k:
+                        continue
+                    for _bi, t in b2.calls():
+                        cb = facts.body_of_fnconst(t['func'])
+                        if cb is not None and getattr(cb, 'key_in_facts', cb.path) == k:
+                            callers.add(_re_closure.sub('', k2))
+                if len(callers) >= 2:
+                    keepers.append(k)
+            if len(keepers) == 1:
+                keep.append(keepers[0])
+            continue
         if len(outer) == 1:
             keep.append(outer[0])
     return keep
@@ -326,6 +354,10 @@ def normalise(facts, known):
         if m:
             provided.add('%s::%s' % (m.group(1), m.group(2)))
 
+    # (also insensitive to the NAME of a single-letter type parameter: `PackedState<S>` / `PackedState<T>`)
+    _lt = lambda p_: _re.sub(r"(?<![A-Za-z0-9_:])[A-Z](?![A-Za-z0-9_])", "T", _re.sub(r"'[A-Za-z_][A-Za-z0-9_]*", "'_", p_))      # noqa: E731
+    known_lt = {_lt(k) for k in known}
+
     def is_helper(b):
         if b is None or b.is_closure:
             return False
@@ -340,6 +372,8 @@ def normalise(facts, known):
         key = ('%s::%s' % (b.crate_kind, b.path)) if b.crate_kind != 'lib' else b.path
         if key not in known and b.path not in known and b.path in provided:
             return False        # a method the reference tree implements per type, now provided by the trait: same role
+        if key not in known and b.path not in known and (_lt(key) in known_lt or _lt(b.path) in known_lt):
+            return False        # the same function with its lifetime parameters renamed or elided (`impl Basis for X<'_>`)
         return key not in known and b.path not in known
     helpers = {k: b for k, b in facts.bodies.items() if is_helper(b)}
     facts.helpers = {}
